@@ -738,8 +738,20 @@ def r2_records(chk):
         chk.decide(not lost, "C08.R2", f"{yx.key}:every-element-symbol-is-looked-up", yx.where(g0), f"all {len(members)} element symbols reach Element.get",
                    f"the symbols {lost[:8]} never reach Element.get (`{short(pcs[0], 60) if pcs else ''}` sends them to the dummy branch): these elements are read back as Unknown")
     hdr = [s for s in walk_no_nested(rx.node) if isinstance(s, ast.Assign) and norm(s.targets[0]) == "n_atoms"]
-    chk.decide(bool(hdr) and norm(hdr[0].value) == "int(line)", "C08.R2", f"{rx.key}:count-line", rx.where(hdr[0] if hdr else None), "n_atoms = int(first line)",
+    # (a `None` bound to the count is the end-of-input sentinel of a reader split into helpers)
+    real = [h for h in hdr if not (isinstance(h.value, ast.Constant) and h.value.value is None)]
+    chk.decide(len(real) == 1 and norm(real[0].value) == "int(line)", "C08.R2", f"{rx.key}:count-line", rx.where(hdr[0] if hdr else None), "n_atoms = int(first line)",
                "read_xyz does not take the atom count from the first line of the record")
+    # a frame with 0 atoms is a frame: the parse may stop on the end of the input, never on the *value* of the count
+    stops = [g for g in walk_no_nested(rx.node) if isinstance(g, (ast.If, ast.While)) and "n_atoms" in names_in(g.test)
+             and (isinstance(g, ast.While) or any(isinstance(b, (ast.Break, ast.Return)) for b in g.body))]
+    bad_stop = [g for g in stops if not all(isinstance(c, ast.Compare) and len(c.ops) == 1 and isinstance(c.ops[0], (ast.Is, ast.IsNot)) and norm(c.comparators[0]) == "None"
+                                            for c in ast.walk(g.test) if isinstance(c, (ast.Compare,)) or (isinstance(c, ast.Name) and c.id == "n_atoms" and False))
+                or not any(isinstance(c, ast.Compare) for c in ast.walk(g.test))]
+    if stops:
+        chk.decide(not bad_stop, "C08.R2", f"{rx.key}:zero-atom-frame-is-a-frame", rx.where(stops[0]), "the parse stops on a missing count line only (`is None`)",
+                   f"`{short(bad_stop[0].test, 40) if bad_stop else ''}` ends the parse on the value of the atom count: a frame with 0 atoms (what dump_xyz writes for an empty geometry) "
+                   "silently ends the file - the frames behind it are lost")
 
 
 # ---------------------------------------------------------------------------
